@@ -5,9 +5,14 @@
 //	kind 0 leveldb.NewDB, 1 leveldb.NewSerialDB, 2 memorydb.New, 3/4/5 sharded.NewShardedPersister over 0/1/2
 //
 // ops: 1 Put k v | 2 Remove k | 3 Get k | 4 Has k | 5 Tick | 6 Close | 7 Reopen | 8 RangeKeys
+//
+//	9 RangeKeys with a handler answering `calls so far < n` | 10 Destroy | 11 DestroyClosed (refused, class 3, unless
+//	Close or Destroy was called on the current object) | 12 Judge n [visits] (inserted by this driver after every op 9)
+//
 // answer (after every op): 1 class, 2 bytes of Get, 3 [Get classes over the alphabet], 4 [Get bytes ...],
 //
-//	5 [Has classes ...], 6 (op 8) sorted pairs
+//	5 [Has classes ...], 6 (op 8) sorted pairs, 7 (op 9, unsharded kinds) number of handler calls,
+//	8 (op 9, DB / SerialDB) the pairs in call order, 9 (op 12) 1 = the model can explain the visits
 package persist
 
 import (
@@ -48,6 +53,10 @@ const (
 	opClose
 	opReopen
 	opRange
+	opRangeStop
+	opDestroy
+	opDestroyClosed
+	opJudge
 )
 
 const noTimerDelay = 100000 // seconds: the timer never fires within a run
@@ -135,6 +144,65 @@ func (g *gen) get(k []byte) { g.h.Add(opGet, "Get", core.B(k)) }
 func (g *gen) has(k []byte) { g.h.Add(opHas, "Has", core.B(k)) }
 func (g *gen) rangeKeys()   { g.h.Add(opRange, "RangeKeys") }
 func (g *gen) closeP()      { g.h.Add(opClose, "Close"); g.closed = true }
+func (g *gen) rangeStop() {
+	n := core.Pick(g.rng, []int{0, 1, 1, 2, 2, 3, 4, 6})
+	g.h.Add(opRangeStop, fmt.Sprintf("RangeKeys, handler stops after %d visits", n), core.N(uint64(n)))
+}
+func (g *gen) destroy() {
+	g.h.Add(opDestroy, "Destroy")
+	g.closed = true
+	for i := range g.pend {
+		g.pend[i] = 0
+	}
+}
+func (g *gen) destroyClosed() { g.h.Add(opDestroyClosed, "DestroyClosed") }
+
+// operations on an object on which Close / Destroy / DestroyClosed has been called
+func (g *gen) opsOnDeadObject() {
+	for n := 1 + g.rng.Intn(4); n > 0; n-- {
+		switch g.rng.Intn(9) {
+		case 0:
+			g.put(g.key(), randVal(g.rng))
+		case 1:
+			g.remove(g.key())
+		case 2:
+			g.get(g.key())
+		case 3:
+			g.has(g.key())
+		case 4:
+			g.rangeKeys()
+		case 5:
+			g.rangeStop()
+		case 6:
+			g.closeP()
+		case 7:
+			g.destroyClosed()
+		default:
+			g.destroy()
+		}
+	}
+}
+
+// Destroy on the open persister, or Close then DestroyClosed; sometimes operations on the destroyed object;
+// then the constructor on the same path and a look at what it holds
+func (g *gen) destroyCycle() {
+	if g.rng.Intn(2) == 0 {
+		g.destroy()
+	} else {
+		g.closeP()
+		g.destroyClosed()
+	}
+	if g.rng.Intn(3) == 0 {
+		g.opsOnDeadObject()
+	}
+	g.reopen()
+	switch g.rng.Intn(3) {
+	case 0:
+		g.rangeKeys()
+	case 1:
+		g.rangeStop()
+	}
+}
 func (g *gen) tick() {
 	g.h.Add(opTick, "Tick")
 	g.ticks++
@@ -200,8 +268,11 @@ func (g *gen) cycle() {
 		g.closeP()
 	}
 	g.reopen()
-	if g.rng.Intn(2) == 0 {
+	switch g.rng.Intn(5) {
+	case 0, 1:
 		g.rangeKeys()
+	case 2:
+		g.rangeStop()
 	}
 }
 
@@ -273,14 +344,18 @@ func pickKind(prop string, rng *rand.Rand) int {
 	switch prop {
 	case "C09":
 		switch {
-		case r < 35:
+		case r < 32:
 			return 0
-		case r < 70:
+		case r < 64:
 			return 1
-		case r < 85:
+		case r < 78:
 			return 3
-		default:
+		case r < 92:
 			return 4
+		case r < 96: // no path, no Close: only RangeKeys (early stop) and Destroy say something here
+			return 2
+		default:
+			return 5
 		}
 	case "C19":
 		switch {
@@ -360,9 +435,9 @@ func (comp) Gen(prop string, rng *rand.Rand, tier string) *core.History {
 	}
 	g.h.SetConfig(core.N(uint64(g.kind)), core.I(int64(g.max)), core.N(uint64(g.nsh)), core.N(uint64(delay)), core.L(toks...))
 
-	cycleW := 6
+	cycleW, destroyW := 6, 3
 	if prop == "C09" {
-		cycleW = 12
+		cycleW, destroyW = 12, 7
 	}
 	for len(g.h.Ops) < nops {
 		if g.closed {
@@ -381,13 +456,21 @@ func (comp) Gen(prop string, rng *rand.Rand, tier string) *core.History {
 			g.get(g.key())
 		case r < 69:
 			g.has(g.key())
-		case r < 76:
+		case r < 73:
 			g.rangeKeys()
-		case r < 76+cycleW:
+		case r < 78:
+			g.rangeStop()
+		case r < 78+cycleW:
 			if tickHist && len(g.h.Ops) > nops-4 {
 				g.put(g.key(), randVal(rng))
 			} else {
 				g.cycle()
+			}
+		case r < 78+cycleW+destroyW:
+			if tickHist {
+				g.put(g.key(), randVal(rng))
+			} else {
+				g.destroyCycle()
 			}
 		default:
 			if tickHist {
@@ -403,10 +486,19 @@ func (comp) Gen(prop string, rng *rand.Rand, tier string) *core.History {
 	if tickHist && g.ticks == 0 {
 		g.tickPattern()
 	}
-	if rng.Intn(2) == 0 {
+	switch rng.Intn(8) {
+	case 0, 1, 2:
 		g.closeP()
 		g.reopen()
 		g.rangeKeys()
+	case 3:
+		g.closeP()
+		g.reopen()
+		g.rangeStop()
+	case 4:
+		if !tickHist {
+			g.destroyCycle()
+		}
 	}
 	return g.h
 }
@@ -430,6 +522,21 @@ func (comp) Exhaustive(prop string, tier string, yield func(*core.History)) {
 	}
 	cyc := []mk{
 		func(h *core.History) { h.Add(opClose, ""); h.Add(opReopen, ""); h.Add(opRange, "") },
+	}
+	// early-stopping RangeKeys; Destroy / Close;DestroyClosed, then the constructor again and a look at the content
+	stops := []mk{
+		func(h *core.History) { h.Add(opRangeStop, "", core.N(1)) },
+		func(h *core.History) { h.Add(opRangeStop, "", core.N(2)) },
+	}
+	dcyc := []mk{
+		func(h *core.History) { h.Add(opDestroy, ""); h.Add(opReopen, ""); h.Add(opRange, "") },
+		func(h *core.History) {
+			h.Add(opClose, "")
+			h.Add(opDestroyClosed, "")
+			h.Add(opGet, "", core.B(ka))
+			h.Add(opReopen, "")
+			h.Add(opRangeStop, "", core.N(1))
+		},
 	}
 	all := append(append([]mk{}, writes...), gets...)
 	// enum yields every sequence of `length` ops of the alphabet; with `first` > 0 the first op is taken among
@@ -480,6 +587,19 @@ func (comp) Exhaustive(prop string, tier string, yield func(*core.History)) {
 		}
 		enum(3, 2, 2, 3, wc, 0)
 		enum(4, 2, 2, 3, wc, 0)
+		// early stop and destroy: Put a v1, Put b v1, Put b empty, Remove a + the two stops + the two destroy cycles
+		wd := append(append(append([]mk{}, dcyc...), stops...), writes[0], writes[2], writes[3], writes[4])
+		for _, kind := range []int{0, 1} {
+			if thorough {
+				enum(kind, 2, 2, 4, wd, 0)
+			} else {
+				enum(kind, 2, 2, 3, wd, 0)
+			}
+		}
+		// MaxBatchSize 1: every write is flushed at once, so the two shards both hold something to visit
+		for _, kind := range []int{3, 4, 5, 2} {
+			enum(kind, 1, 2, 3, wd, 0)
+		}
 	case "C19":
 		// keys a (0x61 -> shard 1 of 2) and b (0x62 -> shard 0 of 2): sharded over memorydb (long), over LevelDB (short)
 		enum(5, 1, 2, 5, all, 0)
@@ -560,8 +680,9 @@ type world struct {
 	root                  string
 	p                     types.Persister
 	sp                    types.ShardIDProvider
-	closedCalled          bool
+	closedCalled          bool // Close or Destroy was called on the current object
 	closeOK               bool
+	destroyed             bool // Destroy / DestroyClosed returned nil on the current object (or on its path)
 	levelDB               bool // batching persister (kinds 0,1,3,4)
 	shardedKind           bool
 
@@ -610,6 +731,7 @@ func (w *world) open() error {
 	w.t0b = time.Now()
 	w.fires = 0
 	w.closedCalled = false
+	w.destroyed = false
 	return err
 }
 
@@ -665,6 +787,137 @@ func (w *world) rangePairs() []pair {
 		return bytes.Compare(out[i].v, out[j].v) < 0
 	})
 	return out
+}
+
+// RangeKeys with a handler that answers `calls so far < n`; the pairs in the order of the calls
+func (w *world) stopVisits(n int) []pair {
+	var out []pair
+	w.p.RangeKeys(func(k, v []byte) bool {
+		out = append(out, pair{append([]byte{}, k...), append([]byte{}, v...)})
+		return len(out) < n
+	})
+	return out
+}
+
+// the directories of the persister (one per shard) that still exist
+func (w *world) dirsLeft() []string {
+	if !w.levelDB {
+		return nil
+	}
+	dirs := []string{w.root}
+	if w.shardedKind {
+		dirs = dirs[:0]
+		for i := 0; i < w.nsh; i++ {
+			dirs = append(dirs, fmt.Sprintf("%s/%d", w.root, i))
+		}
+	}
+	var left []string
+	for _, d := range dirs {
+		if _, err := os.Stat(d); err == nil {
+			left = append(left, d)
+		}
+	}
+	return left
+}
+
+// everything acknowledged so far is gone with the storage medium
+func (w *world) forgetAll() {
+	w.ref = map[string][]byte{}
+	w.flushed = map[string][]byte{}
+	w.pendPut = map[string]bool{}
+	w.pendRem = map[string]bool{}
+	for i := range w.pend {
+		w.pend[i] = 0
+	}
+}
+
+// the early-stop half of C09, from the text: every visited pair is a flushed pair, no key twice; an unsharded persister
+// stops for good at the first `false` (exactly min(max(n,1), flushed) visits), LevelDB visits in ascending key order.
+// The sharded persister hands the handler to every shard in turn: a `false` ends the shard that received it only.
+func (w *world) checkStopVisits(n int, vs []pair, want map[string][]byte) string {
+	seen := map[string]bool{}
+	for _, p := range vs {
+		if seen[string(p.k)] {
+			return fmt.Sprintf("key %x visited twice", p.k)
+		}
+		seen[string(p.k)] = true
+		v, ok := want[string(p.k)]
+		if !ok {
+			return fmt.Sprintf("key %x visited with value %x but it is not a flushed key", p.k, p.v)
+		}
+		if !bytes.Equal(canon(v), canon(p.v)) {
+			return fmt.Sprintf("key %x visited with value %x, its flushed value is %x", p.k, p.v, v)
+		}
+	}
+	nEff := n
+	if nEff < 1 {
+		nEff = 1
+	}
+	least := nEff
+	if len(want) < least {
+		least = len(want)
+	}
+	if len(vs) < least {
+		return fmt.Sprintf("%d visits, but the handler asked to stop after %d and %d keys are flushed", len(vs), nEff, len(want))
+	}
+	// runs of consecutive visits in one shard (an unsharded persister is one shard)
+	type run struct {
+		shard      int
+		start, end int
+	}
+	var runs []run
+	for j, p := range vs {
+		sh := w.shard(p.k)
+		if len(runs) > 0 && runs[len(runs)-1].shard == sh {
+			runs[len(runs)-1].end = j + 1
+			continue
+		}
+		for _, r := range runs {
+			if r.shard == sh {
+				return fmt.Sprintf("visit %d (key %x) returns to shard %d after another shard was visited", j+1, p.k, sh)
+			}
+		}
+		runs = append(runs, run{sh, j, j + 1})
+	}
+	for _, r := range runs {
+		// call number t (1-based) is answered t < n: after a `false` the same shard must not be iterated any further
+		for t := r.start + 1; t < r.end; t++ {
+			if t >= nEff {
+				return fmt.Sprintf("the handler answered false at call %d, call %d (key %x) continues the iteration of the same persister", t, t+1, vs[t].k)
+			}
+		}
+		if w.levelDB {
+			// ascending key order: the run is the first len(run) flushed keys of that shard
+			var keys [][]byte
+			for k := range want {
+				if w.shard([]byte(k)) == r.shard {
+					keys = append(keys, []byte(k))
+				}
+			}
+			sort.Slice(keys, func(a, b int) bool { return bytes.Compare(keys[a], keys[b]) < 0 })
+			for t := r.start; t < r.end; t++ {
+				if !bytes.Equal(keys[t-r.start], vs[t].k) {
+					return fmt.Sprintf("visit %d is key %x; in ascending key order it is %x", t+1, vs[t].k, keys[t-r.start])
+				}
+			}
+		}
+	}
+	if !w.shardedKind && len(vs) != least {
+		return fmt.Sprintf("%d visits; the handler asked to stop after %d and %d keys are flushed", len(vs), nEff, len(want))
+	}
+	if w.shardedKind {
+		// every shard is walked: a shard holding flushed keys is visited at least once
+		visited := map[int]bool{}
+		for _, r := range runs {
+			visited[r.shard] = true
+		}
+		for k := range want {
+			if !visited[w.shard([]byte(k))] {
+				return fmt.Sprintf("shard %d holds the flushed key %x but was not visited", w.shard([]byte(k)), k)
+			}
+		}
+	}
+	return ""
 }
 
 // pairs must present `want` exactly: every binding once with its value, nothing else
@@ -763,6 +1016,7 @@ func runOnce(h *core.History, scratch string) (*core.Result, bool) {
 		class := 0
 		ret := "-"
 		extra := ""
+		var judge *core.Op
 		if op.Code != opTick {
 			w.checkHazard()
 		}
@@ -912,15 +1166,25 @@ func runOnce(h *core.History, scratch string) (*core.Result, bool) {
 				class = 3
 				break
 			}
+			wasDestroyed := w.destroyed
 			if err := w.open(); err != nil {
 				panic(fmt.Sprintf("cannot reopen persister: %v", err))
+			}
+			how := "Close+reopen"
+			if wasDestroyed {
+				how = "Destroy+reopen"
 			}
 			if !w.levelDB {
 				// memorydb has no path: a new object is a new empty map (C09 does not speak about it)
 				w.ref = map[string][]byte{}
 				w.flushed = map[string][]byte{}
 			} else if w.closeOK {
-				res.Hit("reopen")
+				if wasDestroyed {
+					// nothing resurrected: the persister opened on a destroyed path is empty (w.ref is empty)
+					res.Hit("reopen-after-destroy")
+				} else {
+					res.Hit("reopen")
+				}
 				// C09: exactly the acknowledged map, via Get, Has and RangeKeys
 				for _, k := range w.alpha {
 					v, err := w.p.Get(k)
@@ -928,18 +1192,18 @@ func runOnce(h *core.History, scratch string) (*core.Result, bool) {
 					want, ok := w.ref[string(k)]
 					switch {
 					case ok && err != nil:
-						failAll(res, c09, i, "after Close+reopen Get(%x) fails with %v; acknowledged value %x was lost", k, err, want)
+						failAll(res, c09, i, "after %s Get(%x) fails with %v; acknowledged value %x was lost", how, k, err, want)
 					case ok && !bytes.Equal(canon(v), want):
-						failAll(res, c09, i, "after Close+reopen Get(%x) = %x; the acknowledged value is %x", k, v, want)
+						failAll(res, c09, i, "after %s Get(%x) = %x; the acknowledged value is %x", how, k, v, want)
 					case !ok && classOf(err) != 1:
-						failAll(res, c09, i, "after Close+reopen Get(%x) = %x,%v; the key was never put or was removed (resurrected)", k, v, err)
+						failAll(res, c09, i, "after %s Get(%x) = %x,%v; the key was never put, was removed or was destroyed (resurrected)", how, k, v, err)
 					}
 					if (herr == nil) != ok {
-						failAll(res, c09, i, "after Close+reopen Has(%x) = %v; key acknowledged present: %v", k, herr, ok)
+						failAll(res, c09, i, "after %s Has(%x) = %v; key acknowledged present: %v", how, k, herr, ok)
 					}
 				}
 				if msg := comparePairs(w.rangePairs(), w.ref); msg != "" {
-					failAll(res, c09, i, "after Close+reopen RangeKeys does not present the acknowledged map: %s", msg)
+					failAll(res, c09, i, "after %s RangeKeys does not present the acknowledged map: %s", how, msg)
 				}
 			}
 		case opRange:
@@ -975,6 +1239,102 @@ func runOnce(h *core.History, scratch string) (*core.Result, bool) {
 			} else if w.levelDB && len(ps) > 0 {
 				failAll(res, c09, i, "RangeKeys on a closed persister visited %d pairs", len(ps))
 			}
+		case opRangeStop:
+			n := a[0].Int()
+			vs := w.stopVisits(n)
+			toks := make([]string, 0, 2*len(vs))
+			for _, p := range vs {
+				toks = append(toks, core.B(p.k), core.B(p.v))
+			}
+			if !w.shardedKind {
+				extra = core.Lbl(7, core.N(uint64(len(vs))))
+				if w.levelDB {
+					extra += " " + core.Lbl(8, core.L(toks...))
+				}
+			}
+			jop := core.NewOp(opJudge, "what the handler of the previous op was given, in call order", core.N(uint64(n)), core.L(toks...))
+			judge = &jop
+			if open {
+				want := w.flushed
+				if !w.levelDB {
+					want = w.ref
+				}
+				if msg := w.checkStopVisits(n, vs, want); msg != "" {
+					failAll(res, c09, i, "RangeKeys with a handler that stops after %d visits: %s", n, msg)
+				}
+				nEff := n
+				if nEff < 1 {
+					nEff = 1
+				}
+				switch {
+				case len(vs) < len(want):
+					res.Hit("range-early-stop")
+				case len(want) > 0 && nEff > len(want):
+					res.Hit("range-stop-not-reached")
+				}
+				if w.shardedKind && len(vs) > nEff {
+					res.Hit("range-stop-continued-in-next-shard")
+				}
+			} else {
+				res.Hit("range-stop-on-closed")
+				if w.levelDB && len(vs) > 0 {
+					failAll(res, c09, i, "RangeKeys on a closed / destroyed persister visited %d pairs", len(vs))
+				}
+			}
+		case opDestroy:
+			err := w.p.Destroy()
+			class = classOf(err)
+			if open {
+				res.Hit("destroy-open")
+				if w.levelDB && len(w.pendPut)+len(w.pendRem) > 0 {
+					res.Hit("destroy-with-pending-batch")
+				}
+			} else {
+				res.Hit("destroy-on-closed")
+			}
+			if err != nil {
+				failAll(res, c09, i, "Destroy failed: %v", err)
+			} else {
+				if left := w.dirsLeft(); len(left) > 0 {
+					failAll(res, c09, i, "Destroy returned nil but the stored data is still there: %v", left)
+				}
+				w.forgetAll()
+				w.destroyed = true
+				w.closeOK = true
+			}
+			w.closedCalled = true
+			if !w.levelDB && err == nil {
+				// memorydb: Destroy empties the map, the object lives on
+				for _, k := range w.alpha {
+					if _, gerr := w.p.Get(k); gerr == nil || w.p.Has(k) == nil {
+						failAll(res, c09, i, "after Destroy key %x is still present", k)
+					}
+				}
+				if ps := w.rangePairs(); len(ps) > 0 {
+					failAll(res, c09, i, "after Destroy RangeKeys still visits %d pairs", len(ps))
+				}
+			}
+		case opDestroyClosed:
+			if !w.closedCalled {
+				class = 3
+				break
+			}
+			err := w.p.DestroyClosed()
+			class = classOf(err)
+			res.Hit("destroy-closed")
+			if err != nil {
+				failAll(res, c09, i, "DestroyClosed failed: %v", err)
+			} else {
+				if left := w.dirsLeft(); len(left) > 0 {
+					failAll(res, c09, i, "DestroyClosed returned nil but the stored data is still there: %v", left)
+				}
+				w.forgetAll()
+				w.destroyed = true
+				w.closeOK = true
+			}
+		case opJudge:
+			// only ever inserted by this driver; a history that carries one is answered like an accepted judgement
+			extra = core.Lbl(9, core.N(1))
 		}
 
 		// probes: Get / Has of every key of the alphabet
@@ -1012,8 +1372,12 @@ func runOnce(h *core.History, scratch string) (*core.Result, bool) {
 		if extra != "" {
 			toks = append(toks, extra)
 		}
-		toks = append(toks, core.Lbl(3, core.L(gc...)), core.Lbl(4, core.L(gb...)), core.Lbl(5, core.L(hc...)))
+		probes := []string{core.Lbl(3, core.L(gc...)), core.Lbl(4, core.L(gb...)), core.Lbl(5, core.L(hc...))}
+		toks = append(toks, probes...)
 		res.AddObs(toks...)
+		if judge != nil {
+			res.Insert(i, *judge, append([]string{core.Lbl(1, core.N(0)), core.Lbl(2, "-"), core.Lbl(9, core.N(1))}, probes...)...)
+		}
 	}
 	w.checkHazard()
 	if w.shardedKind && len(w.everUsed) >= 2 {
